@@ -49,4 +49,4 @@ try:
 finally:
     subprocess.call(["git", "-C", "/repo", "worktree", "remove", "--force", wt])
     shutil.rmtree(wt, ignore_errors=True)
-    shutil.rmtree("/verif/replays", ignore_errors=True)
+    shutil.rmtree("/verif/replays_scratch", ignore_errors=True)
